@@ -52,6 +52,9 @@
 #define _VAR_CLOSE  '}'
 #define _VAR_CMD    '!'
 #define _VAR_ENV    '%'
+#ifndef _VAR_MAX_EXPANSIONS
+#define _VAR_MAX_EXPANSIONS  (32)   /* max. replacement rounds per value */
+#endif
 
 /* internal functions */
 static char *_parsestr(qlisttbl_t *tbl, const char *str);
@@ -330,9 +333,15 @@ static char *_parsestr(qlisttbl_t *tbl, const char *str) {
     }
 
     bool loop;
+    int rounds = 0;
     char *value = strdup(str);
     do {
         loop = false;
+
+        // self- or mutually-referential variables would be expanded forever:
+        // give up after a fixed number of rounds and keep the text as it is.
+        if (++rounds > _VAR_MAX_EXPANSIONS)
+            break;
 
         // find ${
         char *s, *e;
